@@ -40,7 +40,8 @@ class Raised(Exception):
 
 
 BIN = {ast.Add: operator.add, ast.Sub: operator.sub, ast.Mult: operator.mul, ast.FloorDiv: operator.floordiv, ast.Mod: operator.mod,
-       ast.Pow: operator.pow}
+       ast.Pow: operator.pow, ast.Div: operator.truediv, ast.BitAnd: operator.and_, ast.BitOr: operator.or_, ast.BitXor: operator.xor,
+       ast.LShift: operator.lshift, ast.RShift: operator.rshift}
 CMP = {ast.Eq: operator.eq, ast.NotEq: operator.ne, ast.Lt: operator.lt, ast.LtE: operator.le, ast.Gt: operator.gt, ast.GtE: operator.ge,
        ast.In: lambda a, b: a in b, ast.NotIn: lambda a, b: a not in b, ast.Is: operator.is_, ast.IsNot: operator.is_not}
 PYEXC = (IndexError, KeyError, AttributeError, ValueError, TypeError, ZeroDivisionError, StopIteration, OSError, OverflowError)
@@ -716,6 +717,17 @@ class Folder:
                 finally:
                     for cm in reversed(managers):
                         cm.__exit__(None, None, None)
+            elif isinstance(s, (ast.Import, ast.ImportFrom)):
+                # a local import of something the rule supplied (e.g. `import random` inside a function): bind it; anything else is unknown
+                for a in s.names:
+                    nm = (a.asname or a.name).split(".")[0]
+                    src_name = a.name.split(".")[0] if isinstance(s, ast.Import) else a.name
+                    if src_name in self.globals:
+                        self.env[nm] = self.globals[src_name]
+                    elif src_name in FUNCS:
+                        self.env[nm] = FUNCS[src_name]
+                    else:
+                        raise Unknown("import of %s" % a.name)
             elif isinstance(s, ast.Global):
                 self.env["__global_names__"] = set(self.env.get("__global_names__", ())) | set(s.names)
                 for nm in s.names:
